@@ -44,6 +44,11 @@ def run(ctx):
     # the line-level schedules of POWEROFF racing one tick (machinery of C03)
     from . import c03
     c03.schedules(ctx, only="off")
+    # "the shared clock generator runs iff at least one of them is running" rests on CLCKGen.stop()
+    # really ending the worker, also when POWEROFF arrives while the clock thread is inside a tick:
+    # the two-thread rig of C09 (real start/stop/_worker on simulated threads, ClckGenThreads.tla)
+    from . import c09
+    c09.threads_stage(ctx)
     traces = [session(ctx, "s%d" % k) for k in range(ctx.pick(150, 4000))]
     for t in traces:
         ctx.count()
